@@ -231,6 +231,13 @@ inductive Bystander where
   | tick (prunes : Bool)
   deriving Repr, DecidableEq
 
+/-- one run of `pickIdlePieces`: the pieces the picker chose, in order; every loop of the code
+    stops at / skips complete pieces (`if t.Pieces.Complete(pn) { break }`, `!Complete(i)` for
+    the Fast set), which is the guard here; which pieces and how many is the scheduler's
+    choice (an input) -/
+def Sys.idlePick (s : Sys) (picked : List Nat) : Sys :=
+  picked.foldl (fun s i => if s.complete[i]? = some false then s.step (.idleAdd i) else s) s
+
 def Bystander.prunes : Bystander → Bool
   | .setConf _ _ _ => true
   | .peerUnchoke p => p
